@@ -101,8 +101,14 @@ def _sel(case, rng):
 def _tol(r, S, xmax, c):
     """c: error of the mean-square deviation in units of eps32*S"""
     e = oracle.EPS32
-    t1 = math.sqrt(c * e * S)
-    t2 = c * e * S / (2 * r) if r > 0 else t1
+    E = c * e * S
+    if c >= 8.0 / math.sqrt(e):
+        # planar class (double root of the characteristic polynomial): a perturbation of the matrix elements moves the root by
+        # its square root, and the float32 rounding of coordinates far from the origin (rho = eps32 * |x|max per coordinate) is
+        # such a perturbation: dM ~ N * 2 rho * size, lambda ~ N * S / 2  ->  d(msd) = 2 * sqrt(rho * size * S)
+        E += 8.0 * math.sqrt(e * xmax * math.sqrt(S / 2.0) * S)        # (order-of-magnitude model: constant 8 calibrated)
+    t1 = math.sqrt(E)
+    t2 = E / (2 * r) if r > 0 else t1
     return min(t1, t2) + 8 * e * xmax + 1e-7
 
 
